@@ -72,7 +72,19 @@ impl Property for C19 {
         sc.set("drain_j", rng.range(2, 4));
         sc.set("sound_late", rng.chance(1, 4) as i64);
         sc.set("tape", rng.chance(1, 4) as i64);
-        let snaps = rng.chance(1, 3);
+        // a loud episode: AY at full DC level together with the speaker, at a high volume setting; later the host
+        // stops mixing the AY and the beeper alone must come out exactly as before
+        let loud = rng.chance(1, 16);
+        if loud {
+            sc.set("ay_loud", 1);
+            sc.set("ay", 1);
+            sc.set("ay_seed", 12345);
+            sc.set("volume", *rng.pick(&[100i64, 100, 90, 87]));
+            sc.set("beeper", 1);
+            sc.set("drain", 0);
+            sc.set("tape", 0);
+        }
+        let snaps = rng.chance(1, 3) && !loud;
         let ay_sets = rng.chance(1, 3);
         let f: i64 = if m128 { 70908 } else { 69888 };
         let frames = if tier == Tier::Quick { rng.range(3, 6) } else { rng.range(3, 12) };
@@ -84,7 +96,10 @@ impl Property for C19 {
                 sc.op("out", &[fr, t, (rng.u8() & 0x1F) as i64]);
             }
             sc.op("frame", &[fr, rng.range(1, 3)]);
-            if ay_sets && rng.chance(1, 2) {
+            if loud && fr == 1 {
+                sc.op("ayset", &[0]);
+            }
+            if ay_sets && rng.chance(1, 2) && !loud {
                 // the host switches AY sound on or off between two frames
                 sc.op("ayset", &[rng.range(0, 1)]);
             }
@@ -93,6 +108,13 @@ impl Property for C19 {
                 // (format: SZX at the frame start, SZX taken inside a frame, SNA; the program it replaces may be
                 // waiting in a HALT)
                 sc.op("snap", &[(rng.u8() & 0x18) as i64, rng.range(0, 7), rng.range(0, 2), rng.range(0, f - 1), rng.chance(1, 2) as i64]);
+            }
+        }
+        // a level that is set and then held for more than two seconds
+        if rng.chance(1, 40) {
+            sc.op("out", &[frames, 100, *rng.pick(&[0x10i64, 0x18, 0x08])]);
+            for fr in frames..frames + rng.range(104, 130) {
+                sc.op("frame", &[fr, 1]);
             }
         }
         sc
@@ -150,7 +172,16 @@ impl Property for C19 {
             let mut r = Rng::new(sc.get("ay_seed") as u64);
             for reg in 0..14u8 {
                 e.verif_bus().write_io(0xFFFD, reg);
-                let v = if reg == 7 { r.u8() & 0x3F } else { r.u8() };
+                let mut v = if reg == 7 { r.u8() & 0x3F } else { r.u8() };
+                if sc.get("ay_loud") != 0 {
+                    // all three channels as loud DC (tone and noise gates open, full volume): with the speaker high
+                    // the mix is as large as it gets
+                    v = match reg {
+                        7 => 0x3F,
+                        8..=10 => 0x0F,
+                        _ => v,
+                    };
+                }
                 e.verif_bus().write_io(0xBFFD, v);
             }
             e.verif_set_frame_clocks(0);
@@ -320,7 +351,7 @@ impl Property for C19 {
                                 ));
                             }
                         }
-                        if drain == 0 && !ay_now && !ay_active {
+                        if drain == 0 && !ay_now {
                             // per-sample level, +-1 sample around each change
                             let tpf = f as f64 / spf as f64;
                             for (k, s) in audio.iter().enumerate() {
